@@ -42,6 +42,31 @@ theorem Agree.devWrite (idx : Nat) : Agree (devWrite idx) := by
     rw [h1]
     exact ⟨Nat.le_refl _, fun _ => h2⟩
 
+/-- A computation wrapped by `untagIfErr` (what the write-backs are) agrees with its fault-free run as the
+computation itself does, provided it answers `Ok` whenever no device call failed. -/
+theorem agree_untag {α} {m' : F α} (ha : Agree m') (hok : ∀ s, (m' s).2.dev.failed = s.dev.failed → ∃ a, (m' s).1 = .ok a)
+    (s : FS) :
+    s.dev.failed ≤ (untagIfErr (m' s)).2.dev.failed ∧
+    ((untagIfErr (m' s)).2.dev.failed = s.dev.failed →
+      untagIfErr (m' (clr s)) = ((untagIfErr (m' s)).1, clr (untagIfErr (m' s)).2)) := by
+  obtain ⟨hle, hag⟩ := ha s
+  rw [untagIfErr_dev]
+  refine ⟨hle, fun heq => ?_⟩
+  obtain ⟨a, hr⟩ := hok s heq
+  have h := hag heq
+  rcases hm : m' s with ⟨r, s'⟩
+  rw [hm] at hr h
+  simp only at hr
+  subst hr
+  rw [h]
+  rfl
+
+theorem devWrite_quiet_ok (idx : Nat) (s : FS) (h : (devWrite idx s).2.dev.failed = s.dev.failed) :
+    ∃ a, (devWrite idx s).1 = .ok a := by
+  rcases Fault.devWrite_result idx s with hr | hr
+  · exact ⟨(), hr⟩
+  · rw [Fault.devWrite_fail_failed hr] at h; omega
+
 theorem Agree.writeBack : Agree writeBack := by
   intro s
   cases ht : s.cache.tag with
@@ -51,15 +76,14 @@ theorem Agree.writeBack : Agree writeBack := by
       unfold Model.writeBack; rw [show (clr s).cache.tag = none from ht]
     rw [h0]; exact ⟨Nat.le_refl _, fun _ => h1⟩
   | some idx =>
-    rw [FBasic.writeBack_some s idx ht, FBasic.writeBack_some (clr s) idx ht]
-    exact Agree.devWrite idx s
+    rw [Fault.writeBack_tagged ht, Fault.writeBack_tagged (s := clr s) ht]
+    exact agree_untag (Agree.devWrite idx) (devWrite_quiet_ok idx) s
 
 theorem wbdup_some (dup idx : Nat) (s : FS) (h : s.cache.tag = some idx) :
-    writeBackWithDuplicate dup s = (devWrite idx >>= fun _ => devWrite dup) s := by
-  rw [Fault.writeBackWithDuplicate_eq]; simp only [h]
+    writeBackWithDuplicate dup s = untagIfErr ((devWrite idx >>= fun _ => devWrite dup) s) :=
+  Fault.writeBackDup_tagged dup h
 theorem wbdup_none (dup : Nat) (s : FS) (h : s.cache.tag = none) :
-    writeBackWithDuplicate dup s = (.panic "write_back with no read", s) := by
-  rw [Fault.writeBackWithDuplicate_eq]; simp only [h]
+    writeBackWithDuplicate dup s = (.panic "write_back with no read", s) := Fault.writeBackDup_none dup h
 
 theorem Agree.writeBackWithDuplicate (dup : Nat) : Agree (writeBackWithDuplicate dup) := by
   intro s
@@ -69,7 +93,20 @@ theorem Agree.writeBackWithDuplicate (dup : Nat) : Agree (writeBackWithDuplicate
     exact ⟨Nat.le_refl _, fun _ => rfl⟩
   | some idx =>
     rw [wbdup_some dup idx s ht, wbdup_some dup idx (clr s) ht]
-    exact Agree.bind (Agree.devWrite idx) (fun _ => Agree.devWrite dup) s
+    refine agree_untag (Agree.bind (Agree.devWrite idx) (fun _ => Agree.devWrite dup)) (fun t hq => ?_) s
+    have h1 : t.dev.failed ≤ (Model.devWrite idx t).2.dev.failed := FaultMono.devWrite idx t
+    have h2 : (Model.devWrite idx t).2.dev.failed ≤ (Model.devWrite dup (Model.devWrite idx t).2).2.dev.failed :=
+      FaultMono.devWrite dup (Model.devWrite idx t).2
+    rcases Fault.devWrite_result idx t with hr | hr
+    · rcases hd : Model.devWrite idx t with ⟨r, t1⟩
+      rw [hd] at hr h1 h2; simp only at hr h1 h2; subst hr
+      rw [F.bind_ok hd] at hq ⊢
+      exact devWrite_quiet_ok dup t1 (by omega)
+    · have hf := Fault.devWrite_fail_failed hr
+      rcases hd : Model.devWrite idx t with ⟨r, t1⟩
+      rw [hd] at hr hf; simp only at hr hf; subst hr
+      rw [F.bind_err hd] at hq
+      simp only at hq; omega
 
 macro "wagree_step" : tactic => `(tactic| first
   | with_reducible first
@@ -233,13 +270,13 @@ theorem updateFat_any (s : FS) (c val : Nat) (hc : Coherent s) (hg : WFGeom s.vo
       cases h2 : fatBlock2 s.vol c with
       | none =>
         simp only
-        rw [FBasic.writeBack_some s2 _ htag2]
+        rw [Fault.writeBack_tagged htag2, untagIfErr_dev]
         rcases hw1 with ⟨_, hd, _⟩ | ⟨_, hd, _⟩
         · rw [hd, hd2]; exact Upd.refl _ _ _
         · rw [hd, hd2, hblk2]; exact hu1
       | some dup =>
         simp only
-        rw [wbdup_some dup _ s2 htag2]
+        rw [wbdup_some dup _ s2 htag2, untagIfErr_dev]
         rcases hw1 with ⟨hr1, hd, _⟩ | ⟨hr1, hd, _⟩
         · rcases hdw : devWrite (fatBlock s.vol c) s2 with ⟨r1, s3⟩
           rw [hdw] at hr1 hd
@@ -271,12 +308,12 @@ theorem updateFat_any (s : FS) (c val : Nat) (hc : Coherent s) (hg : WFGeom s.vo
         { writeBack := fun s => by
             cases ht : s.cache.tag with
             | none => unfold Model.writeBack; rw [ht]
-            | some idx => rw [FBasic.writeBack_some s idx ht]; exact (devWrite_any idx s).2.2.2
+            | some idx => rw [Fault.writeBack_tagged ht, untagIfErr_dev]; exact (devWrite_any idx s).2.2.2
           writeBackWithDuplicate := fun d s => by
             cases ht : s.cache.tag with
             | none => rw [wbdup_none d s ht]
             | some idx =>
-              rw [wbdup_some d idx s ht]
+              rw [wbdup_some d idx s ht, untagIfErr_dev]
               exact F.Inv.bind (R := fun a b : FS => b.dev.faults = a.dev.faults)
                 (fun s => (devWrite_any idx s).2.2.2) (fun _ s => (devWrite_any d s).2.2.2) s }
       exact updateFat_inv c val
